@@ -194,3 +194,139 @@ def trans_betweenness(A):
 def mirror(A):
     n = len(A)
     return [[A[n - 1 - i][n - 1 - j] for j in range(n)] for i in range(n)]
+
+
+# ---------------------------------------------------------------------------
+# Variant for the `scale` family (hundreds of samples).  Inputs are integer
+# values and integer timings, so every comparison is exact integer
+# arithmetic.  The criterion "every intermediate sample lies strictly below
+# the line i-j" is evaluated as "the largest slope from i to an intermediate
+# sample is strictly smaller than the slope from i to j" (slopes compared by
+# cross-multiplication, timings increase), horizontally as "the largest
+# intermediate value is strictly below min(x_i, x_j)".
+
+def fast_natural(x, t, missing):
+    n = len(x)
+    A = np.zeros((n, n), dtype=int)
+    for i in range(n):
+        if missing[i]:
+            continue
+        best = None
+        xi, ti = int(x[i]), int(t[i])
+        for j in range(i + 1, n):
+            if missing[j]:
+                break                      # nothing is seen across it
+            dx, dt = int(x[j]) - xi, int(t[j]) - ti
+            if best is None or best[0] * dt < dx * best[1]:
+                A[i, j] = A[j, i] = 1
+            if best is None or dx * best[1] > best[0] * dt:
+                best = (dx, dt)
+    return A
+
+
+def fast_horizontal(x, missing):
+    n = len(x)
+    A = np.zeros((n, n), dtype=int)
+    for i in range(n):
+        if missing[i]:
+            continue
+        top = None
+        for j in range(i + 1, n):
+            if missing[j]:
+                break
+            if top is None or top < min(int(x[i]), int(x[j])):
+                A[i, j] = A[j, i] = 1
+            top = int(x[j]) if top is None else max(top, int(x[j]))
+    return A
+
+
+def np_apsp(A):
+    """All-pairs shortest path lengths (inf = unreachable) and numbers of
+    shortest paths (float64), by breadth-first search over neighbour lists."""
+    A = np.asarray(A)
+    n = len(A)
+    nb = [np.nonzero(A[i])[0].tolist() for i in range(n)]
+    D = np.full((n, n), np.inf)
+    S = np.zeros((n, n))
+    for s in range(n):
+        dist = [-1] * n
+        sig = [0.0] * n
+        dist[s], sig[s] = 0, 1.0
+        frontier = [s]
+        while frontier:
+            nxt = []
+            for v in frontier:
+                for w in nb[v]:
+                    if dist[w] < 0:
+                        dist[w] = dist[v] + 1
+                        nxt.append(w)
+                    if dist[w] == dist[v] + 1:
+                        sig[w] += sig[v]
+            frontier = nxt
+        for v in range(n):
+            if dist[v] >= 0:
+                D[s, v] = dist[v]
+                S[s, v] = sig[v]
+    return D, S
+
+
+def np_side(i, n, side):
+    return np.arange(0, i) if side == "retarded" else np.arange(i + 1, n)
+
+
+def np_directed_degree(A, side):
+    A = np.asarray(A)
+    n = len(A)
+    return [int(A[i, np_side(i, n, side)].sum()) for i in range(n)]
+
+
+def np_directed_clustering(A, side):
+    A = np.asarray(A)
+    n = len(A)
+    out = []
+    for i in range(n):
+        s = np_side(i, n, side)
+        nb = s[A[i, s] == 1]
+        k = len(nb)
+        if k < 2:
+            out.append(None)
+            continue
+        links = int(A[np.ix_(nb, nb)].sum()) // 2
+        out.append(links / (k * (k - 1) / 2))
+    return out
+
+
+def np_directed_closeness(D, side):
+    n = len(D)
+    out = []
+    for i in range(n):
+        s = np_side(i, n, side)
+        if len(s) == 0 or not np.isfinite(D[i, s]).all():
+            out.append(None)
+            continue
+        out.append(len(s) / float(D[i, s].sum()))
+    return out
+
+
+def np_pair_betweenness(D, S, i, src, tgt):
+    if len(src) == 0 or len(tgt) == 0:
+        return 0.0
+    dst = D[np.ix_(src, tgt)]
+    on = (D[src, i][:, None] + D[i, tgt][None, :] == dst) & np.isfinite(dst)
+    on &= (src[:, None] != tgt[None, :])
+    num = S[src, i][:, None] * S[i, tgt][None, :]
+    with np.errstate(divide="ignore", invalid="ignore"):
+        frac = np.where(on, num / S[np.ix_(src, tgt)], 0.0)
+    return float(frac.sum())
+
+
+def np_directed_betweenness(D, S, side):
+    n = len(D)
+    return [np_pair_betweenness(D, S, i, np_side(i, n, side),
+                                np_side(i, n, side)) for i in range(n)]
+
+
+def np_trans_betweenness(D, S):
+    n = len(D)
+    return [np_pair_betweenness(D, S, i, np.arange(0, i),
+                                np.arange(i + 1, n)) for i in range(n)]
